@@ -1004,6 +1004,7 @@ def evaluate(scratch_root: str, case) -> Result:
     if os.path.exists(root):
         shutil.rmtree(root)
     os.makedirs(root)
+    foreign_files(root)  # the pool (and the ids only foreign files know) exists before any plan is made
     ex = Exec(root, case)
     live_open = True
     try:
